@@ -587,6 +587,44 @@ func init() {
 				report("contract", what, map[string]string{"gen": sx.String(), "words": joinU64(ws), "prng": fmt.Sprint(usePRNG), "seed": fmt.Sprint(seed)})
 			}
 		}
+		// runes drawn from a table of the user's own belong to that table — also when another table with the same bounds
+		// (another stride, the other range width) was used before
+		for pass := 0; pass < 2; pass++ {
+			tabs := []*unicode.RangeTable{
+				{R16: []unicode.Range16{{Lo: 0x2500, Hi: 0x257e, Stride: 1}}}, {R16: []unicode.Range16{{Lo: 0x2500, Hi: 0x257e, Stride: 2}}},
+				{R32: []unicode.Range32{{Lo: 0x2500, Hi: 0x257e, Stride: 3}}}, {R16: []unicode.Range16{{Lo: 0x41, Hi: 0x5a, Stride: 5}}, LatinOffset: 1},
+				{R16: []unicode.Range16{{Lo: 0x41, Hi: 0x5a, Stride: 1}}, LatinOffset: 1}, {R16: []unicode.Range16{{Lo: 0x3000, Hi: 0x303c, Stride: 6}}},
+				{R16: []unicode.Range16{{Lo: 0x3000, Hi: 0x303c, Stride: 4}}}}
+			for ti := range tabs {
+				tab := tabs[ti]
+				if pass == 1 {
+					tab = tabs[len(tabs)-1-ti]
+				}
+				name := fmt.Sprintf("%+v", *tab)
+				what := ""
+				func() {
+					defer func() {
+						if p := recover(); p != nil {
+							what = fmt.Sprintf("RuneFrom(nil, %s): panic %v", name, p)
+						}
+					}()
+					g := rapid.StringOfN(rapid.RuneFrom(nil, tab), 1, 8, -1)
+					t := rapid.VerifNewT(newRecTB("rt"), rapid.VerifRandStream(r.u64(), false), false)
+					for k := 0; k < 40 && what == ""; k++ {
+						for _, c := range rapid.VerifValue(g, t) {
+							if !unicode.Is(tab, c) {
+								what = fmt.Sprintf("StringOf(RuneFrom(nil, %s)) contains %U, which is not in the table", name, c)
+							}
+						}
+					}
+				}()
+				m.tag("rune-table-membership")
+				m.eval(fmt.Sprint("rune-table-membership ", pass, ti), true)
+				if what != "" {
+					report("rune-table", what, map[string]string{"table": name})
+				}
+			}
+		}
 		// floats at the extremes
 		for i := 0; i < 1500*scale; i++ {
 			usePRNG := r.chance(1, 3)
@@ -1131,6 +1169,44 @@ func c05ElementFilter(buf []uint64) string {
 			t.Fatalf("sum")
 		}
 	}
+	return c05ShrinkExplicit(buf, prop)
+}
+
+// a record of k flags (one word each) that is followed by 7-k optional flags unless its last flag is set: a standalone
+// group of seven words that is not a float.  The float pass of the shrinker lowers word 3 (4, 5) of such a group and
+// sets the words behind it to the maximum; when that sets the last flag the accepted recording is shorter than the
+// group was.  `pre` draws precede the record, `post` draws follow it.
+func c05ShortRecord(k, pre, post int, buf []uint64) string {
+	rec := rapid.Custom(func(t *rapid.T) []bool {
+		v := make([]bool, 0, 7)
+		for i := 0; i < k; i++ {
+			v = append(v, rapid.Bool().Draw(t, "flag"))
+		}
+		if !v[k-1] {
+			for i := k; i < 7; i++ {
+				v = append(v, rapid.Bool().Draw(t, "opt"))
+			}
+		}
+		return v
+	})
+	prop := func(t *rapid.T) {
+		for i := 0; i < pre; i++ {
+			rapid.Bool().Draw(t, "pre")
+		}
+		v := rec.Draw(t, "v")
+		for i := 0; i < post; i++ {
+			rapid.Bool().Draw(t, "post")
+		}
+		if v[k-2] || v[k-1] {
+			t.Fatalf("bad record")
+		}
+	}
+	return c05ShrinkExplicit(buf, prop)
+}
+
+// minimize the failure of prop on buf with the real `shrink`: no crash, not larger, the result replays to the reported
+// failure and is its own recording
+func c05ShrinkExplicit(buf []uint64, prop func(*rapid.T)) string {
 	s := rapid.VerifBufStream(buf, true)
 	var e rapid.VerifErr
 	if p := runTB(func() { e = rapid.VerifCheckOnce(rapid.VerifNewT(newRecTB("efc"), s, false), prop) }); p != nil {
@@ -1259,7 +1335,11 @@ func firstDiff(a, b string) string {
 // fixed shuffle) and draws from each right after building it; the output is sorted by catalogue index
 func orderChild(order int) {
 	tabs := []*unicode.RangeTable{unicode.Latin, unicode.Greek, unicode.Cyrillic, unicode.Digit, unicode.Han, unicode.Hebrew, unicode.Arabic,
-		unicode.Thai, unicode.Armenian, unicode.Georgian, unicode.Hiragana, unicode.Katakana, unicode.Lu, unicode.Ll, unicode.Nd, unicode.Sm}
+		unicode.Thai, unicode.Armenian, unicode.Georgian, unicode.Hiragana, unicode.Katakana, unicode.Lu, unicode.Ll, unicode.Nd, unicode.Sm,
+		// tables of the user's own: the same bounds with different strides, 16-bit and 32-bit ranges, equal tables at two addresses
+		{R16: []unicode.Range16{{Lo: 0x2500, Hi: 0x257e, Stride: 1}}}, {R16: []unicode.Range16{{Lo: 0x2500, Hi: 0x257e, Stride: 2}}},
+		{R32: []unicode.Range32{{Lo: 0x2500, Hi: 0x257e, Stride: 3}}}, {R16: []unicode.Range16{{Lo: 0x2500, Hi: 0x257e, Stride: 2}}},
+		{R16: []unicode.Range16{{Lo: 0x3000, Hi: 0x303c, Stride: 6}}}, {R16: []unicode.Range16{{Lo: 0x3000, Hi: 0x303c, Stride: 1}}}}
 	var cat []func() string
 	draws := func(idx int, draw func(t *rapid.T) string) string {
 		t := rapid.VerifNewT(newRecTB("order"), rapid.VerifRandStream(uint64(1000+idx), false), false)
@@ -1293,6 +1373,10 @@ func orderChild(order int) {
 		})
 		add(func() func(t *rapid.T) string {
 			g := rapid.StringOfN(rapid.RuneFrom([]rune{'a', 'b'}, tabs[k-1]), 0, 5, -1)
+			return func(t *rapid.T) string { return fmt.Sprintf("%q", rapid.VerifValue(g, t)) }
+		})
+		add(func() func(t *rapid.T) string {
+			g := rapid.RuneFrom(nil, tabs[k-1])
 			return func(t *rapid.T) string { return fmt.Sprintf("%q", rapid.VerifValue(g, t)) }
 		})
 	}
@@ -1431,6 +1515,86 @@ func TestCheck(t *testing.T)  { rapid.Check(t, prop("check")) }
 		}
 		if strings.Join(c1[tag], ";") != strings.Join(c1["check"], ";") {
 			return fmt.Sprintf("-rapid.seed=4242: the %s MakeCheck runs other test cases than Check (first: %s / %s)", tag, c1[tag][0], c1["check"][0]), true
+		}
+	}
+	return "", true
+}
+
+// c09GoTest builds a small test package against /repo and runs the test binary with the timeouts a user can give
+// (`go test -timeout 0` = none, the default, one hour) and with -short: a passing Check ran the promised number of
+// test cases (N, or N/5 with -short) each time
+func c09GoTest(tmp string) (what string, ran bool) {
+	goBin, err := exec.LookPath("go")
+	if err != nil {
+		return "no go tool", false
+	}
+	repo := os.Getenv("VERIF_REPO")
+	if repo == "" {
+		repo = "/repo"
+	}
+	dir, err := os.MkdirTemp(tmp, "c09go-")
+	if err != nil {
+		return err.Error(), false
+	}
+	defer os.RemoveAll(dir)
+	sum, _ := os.ReadFile(filepath.Join(repo, "go.sum"))
+	_ = os.WriteFile(filepath.Join(dir, "go.sum"), sum, 0o644)
+	_ = os.WriteFile(filepath.Join(dir, "go.mod"), []byte("module c09probe\n\ngo 1.18\n\nrequire pgregory.net/rapid v0.0.0\n\nreplace pgregory.net/rapid => "+repo+"\n"), 0o644)
+	_ = os.WriteFile(filepath.Join(dir, "probe_test.go"), []byte(`package c09probe
+
+import (
+	"fmt"
+	"testing"
+
+	"pgregory.net/rapid"
+)
+
+func prop(tag string) func(*rapid.T) {
+	return func(t *rapid.T) {
+		a := rapid.IntRange(0, 99).Draw(t, "a")
+		if tag == "skippy" && a < 30 {
+			t.Skip("small")
+		}
+		fmt.Printf("CASE %s %d\n", tag, a)
+	}
+}
+
+func TestCheck(t *testing.T)  { rapid.Check(t, prop("check")) }
+func TestSub(t *testing.T)    { t.Run("sub", rapid.MakeCheck(prop("sub"))) }
+func TestSkippy(t *testing.T) { rapid.Check(t, prop("skippy")) }
+`), 0o644)
+	build := exec.Command(goBin, "test", "-vet=off", "-c", "-o", "probe.test", ".")
+	build.Dir = dir
+	build.Env = append(os.Environ(), "GOFLAGS=-mod=mod", "GOPROXY=off", "GOSUMDB=off", "GOTOOLCHAIN=local")
+	if out, err := build.CombinedOutput(); err != nil {
+		return "go test -c did not run: " + tail(string(out), 300), false // no toolchain / no module cache: not a finding
+	}
+	for _, mode := range []struct {
+		args []string
+		want int
+	}{
+		{[]string{"-test.timeout=0", "-rapid.checks=60"}, 60},
+		{[]string{"-rapid.checks=60"}, 60},
+		{[]string{"-test.timeout=1h", "-rapid.checks=35"}, 35},
+		{[]string{"-test.timeout=0", "-test.short", "-rapid.checks=60"}, 12},
+		{[]string{"-test.timeout=0"}, 100},
+	} {
+		cmd := exec.Command(filepath.Join(dir, "probe.test"), append([]string{"-test.count=1", "-rapid.seed=77"}, mode.args...)...)
+		cmd.Dir = dir
+		out, err := cmd.CombinedOutput()
+		cases := map[string]int{}
+		for _, ln := range strings.Split(string(out), "\n") {
+			if f := strings.SplitN(ln, " ", 3); len(f) == 3 && f[0] == "CASE" {
+				cases[f[1]]++
+			}
+		}
+		if err != nil {
+			return fmt.Sprintf("test binary with %v: a property that never fails did not pass: %s", mode.args, tail(string(out), 300)), true
+		}
+		for _, tag := range []string{"check", "sub", "skippy"} {
+			if cases[tag] != mode.want {
+				return fmt.Sprintf("test binary with %v: the passing %s check ran %d valid test cases, promised %d", mode.args, tag, cases[tag], mode.want), true
+			}
 		}
 	}
 	return "", true
@@ -1660,12 +1824,34 @@ func init() {
 				m.violate(violation{"C05", "efc", what, map[string]string{"words": joinU64(buf)}})
 			}
 		}
+		// seven-word standalone groups that are not floats and get shorter when the float pass lowers one of their words
+		for _, k := range []int{4, 5, 6} {
+			for _, pre := range []int{0, 2} {
+				for _, post := range []int{0, 1} {
+					buf := make([]uint64, pre+7+post)
+					buf[pre+k-2] = 1
+					m.tag("short-record")
+					m.eval(fmt.Sprint("shortrec", k, pre, post), true)
+					if what := c05ShortRecord(k, pre, post, buf); what != "" {
+						m.violate(violation{"C05", "shortrec", what, map[string]string{"words": joinU64(buf), "k": fmt.Sprint(k), "pre": fmt.Sprint(pre), "post": fmt.Sprint(post)}})
+					}
+				}
+			}
+		}
 	}
 }
 
 func init() {
 	replayers["efc"] = func(v violation, tmp string) (bool, string) {
 		what := c05ElementFilter(parseWordsGo(v.Params["words"]))
+		return what != "", what
+	}
+	replayers["gotest"] = func(v violation, tmp string) (bool, string) {
+		what, ran := c09GoTest(tmp)
+		return ran && what != "", what
+	}
+	replayers["shortrec"] = func(v violation, tmp string) (bool, string) {
+		what := c05ShortRecord(atoiS(v.Params["k"]), atoiS(v.Params["pre"]), atoiS(v.Params["post"]), parseWordsGo(v.Params["words"]))
 		return what != "", what
 	}
 	replayers["crash"] = func(v violation, tmp string) (bool, string) {
@@ -1814,6 +2000,16 @@ func init() {
 	}
 
 	monitors["C09"] = func(r *rng, scale int, m *monOut, tmp string) {
+		// the promised amount of work under the timeouts of `go test` (none, default, explicit) and with -short
+		if what, ran := c09GoTest(tmp); ran {
+			m.tag("go-test-timeouts")
+			m.eval("go-test-timeouts", true)
+			if what != "" {
+				m.violate(violation{"C09", "gotest", what, map[string]string{"how": "a scratch test package against /repo, its test binary run with -test.timeout=0 / default / 1h / -test.short"}})
+			}
+		} else {
+			m.tag("go-test-unavailable:" + what)
+		}
 		// very large numbers of checks with deadlines near and far: every one of them is run (a property that
 		// neither draws nor fails; the count is all that is looked at)
 		for _, big := range []struct {
@@ -2295,13 +2491,37 @@ func init() {
 					os.RemoveAll(only)
 					// the usable file damaged so that every data line still *starts* like a word: trailing junk, two words on a
 					// line, a comment behind the word, a conflict marker — unusable; the verdict is that of a run without files
-					for ji, junk := range []string{"?? <<<<<<< garbage", ",0x2b", " # note", "xyz", " 0x1", "\t0b1"} {
+					nData := 0
+					for _, ln := range strings.Split(string(usable), "\n") {
+						if strings.HasPrefix(ln, "0x") {
+							nData++
+						}
+					}
+					for ji, junk := range []string{"?? <<<<<<< garbage", ",0x2b", " # note", "xyz", " 0x1", "\t0b1",
+						// one damaged word only, and not the last one: a word that is no number, a number that does not fit 64 bits
+						"\x00first:zz", "\x00first:ffffffffffffffffff", "\x00butlast:_", "\x00butlast:ffffffffffffffffff"} {
 						var lines []string
+						di := 0
 						for li, ln := range strings.Split(string(usable), "\n") {
-							if strings.HasPrefix(ln, "0x") && (ji%2 == 0 || li%2 == 0) {
-								ln += junk
+							if strings.HasPrefix(ln, "0x") {
+								switch {
+								case strings.HasPrefix(junk, "\x00first:"):
+									if di == 0 && nData > 1 {
+										ln += strings.TrimPrefix(junk, "\x00first:")
+									}
+								case strings.HasPrefix(junk, "\x00butlast:"):
+									if di < nData-1 {
+										ln += strings.TrimPrefix(junk, "\x00butlast:")
+									}
+								case ji%2 == 0 || li%2 == 0:
+									ln += junk
+								}
+								di++
 							}
 							lines = append(lines, ln)
+						}
+						if strings.HasPrefix(junk, "\x00") && nData < 2 {
+							continue
 						}
 						jdir, _ := os.MkdirTemp(tmp, "c17j-")
 						_ = os.MkdirAll(filepath.Join(jdir, "testdata", "rapid", name), 0o775)
@@ -2310,11 +2530,13 @@ func init() {
 						inDir(jdir, func() { junked = runCheckTB(prog, fl, name, nil) })
 						m.tag("file-trailing-junk")
 						m.eval("junk"+junk+src+fmt.Sprint(fl.Seed), true)
-						if junked.escaped != nil || junked.verdict != without.verdict || randomDraws(junked) != randomDraws(without) {
+						// an unusable file is ignored: nothing is replayed from it before the random test cases
+						replayed := len(junked.in.invs) > 0 && junked.in.invs[0].isBuf
+						if junked.escaped != nil || junked.verdict != without.verdict || randomDraws(junked) != randomDraws(without) || replayed {
 							p := flagsStr(fl)
 							p["prog"], p["files"], p["junk"] = src, "trailing-junk", junk
-							m.violate(violation{"C17", "unusable", fmt.Sprintf("a fail file whose data lines carry trailing junk %q: verdict %s, without any file: %s (crash: %v)",
-								junk, junked.verdict, without.verdict, junked.escaped), p})
+							m.violate(violation{"C17", "unusable", fmt.Sprintf("a fail file whose data lines carry trailing junk %q: verdict %s, without any file: %s (crash: %v; a test case was replayed from it: %v)",
+								junk, junked.verdict, without.verdict, junked.escaped, replayed), p})
 						}
 						os.RemoveAll(jdir)
 					}
@@ -2335,4 +2557,9 @@ func randomDraws(run *tbRun) string {
 		}
 	}
 	return b.String()
+}
+
+func atoiS(s string) int {
+	n, _ := strconv.Atoi(s)
+	return n
 }
